@@ -334,9 +334,12 @@ def json_framing(ctx):
     from .cli import run_driver, show
     for c in fam.candidates:
         r = run_driver(ctx, ['--style', 'consise', '--row-seperator', '|'], b'1 [2] "x"')
-        r2 = run_driver(ctx, ['--style', 'consise'], b'1 2', env={'FAIL_WRITE_AT': '1'})
-        c.replay = {'argv': ['--style', 'consise', '--row-seperator', '|'], 'stdin': '1 [2] "x"', 'expected': '1|[2]|"x"|', 'actual': show(r['stdout']), 'write_failure_result': r2['result']}
-        c.status = 'reproduced' if r['stdout'] != b'1|[2]|"x"|' or not str(r2['result']).startswith('err') else 'unit'
+        bad_w = None
+        for kind in ('other', 'brokenpipe', 'wouldblock'):
+            r2 = run_driver(ctx, ['--style', 'consise'], b'1 2', env={'FAIL_WRITE_AT': '1', 'FAIL_WRITE_KIND': kind})
+            if not str(r2['result']).startswith('err'): bad_w = (kind, r2['result']); break
+        c.replay = {'argv': ['--style', 'consise', '--row-seperator', '|'], 'stdin': '1 [2] "x"', 'expected': '1|[2]|"x"|', 'actual': show(r['stdout']), 'write_failure_not_reported': bad_w}
+        c.status = 'reproduced' if r['stdout'] != b'1|[2]|"x"|' or bad_w else 'unit'
 
 
 # ---------------------------------------------------------------- structure x style
@@ -497,4 +500,4 @@ def print_structure(ctx):
         r = run_jawk(ctx, argv, json.dumps(v).encode())
         exp = {'OneLine': json.dumps(v), 'Consise': json.dumps(v, separators=(',', ':')), 'Pretty': json.dumps(v, indent=2)}[sty] + '\n'
         c.replay = {'argv': argv, 'stdin': json.dumps(v), 'expected': exp, 'actual': show(r['stdout'])}
-        c.status = 'reproduced' if show(r['stdout']) != exp else 'not-reproduced'
+        c.status = 'reproduced' if show(r['stdout']) != exp else ('unit' if c.role == 'structure:number' else 'not-reproduced')
